@@ -2,6 +2,8 @@ package rules
 
 import (
 	"fmt"
+	"go/ast"
+	"go/token"
 	"go/types"
 	"regexp"
 	"strings"
@@ -19,6 +21,7 @@ func init() {
 			"R12.3 decode before forwarding: the tee wraps the Scraper's reader field (gzip reader when the content is gzip-encoded) and is the last value stored to it; the parser reads that field; " +
 			"R12.4 header before body: Content-Type is copied from the target's response between RequestTo and ParseResponse; " +
 			"R12.5 single data path, assigned or not: the response writer is written by nothing but the tee (and failure status codes), and the forwarding calls are not conditional on the status-entry lookup. " +
+			"R12.3 also: no method of the pooled gzip reader is called in kvass (it decodes every member of the body as handed out) and it is given back to the pool once (several release sites only if each forgets the reader). " +
 			"Not decided: that the parser consumes the whole stream, line-length limits, chunking.",
 		Assumptions: []string{"go/types and go/ssa are correct"}})
 }
@@ -402,6 +405,49 @@ func runC12(p *engine.Prog, r *engine.Report) {
 		r.Check(ok, "R12.3-decode-before-forward", "parser input in "+engine.FuncName(ps), engine.FuncName(ps), "the statistics parser reads the scraper's reader field (the tee), so parsing and forwarding share one pass", "")
 	}
 
+	// ---- R12.3 (decompressor): the pooled gzip reader is used as obtained and given back once
+	{
+		var conf, puts []string
+		var putCalls []*ssa.Call
+		for _, fn := range p.Funcs {
+			for _, in := range allInstrs(fn) {
+				call, ok := in.(*ssa.Call)
+				if !ok || call.Call.StaticCallee() == nil {
+					continue
+				}
+				callee := call.Call.StaticCallee()
+				if rv := callee.Signature.Recv(); rv != nil && strings.HasSuffix(rv.Type().String(), "gzip.Reader") {
+					conf = append(conf, callee.Name()+" in "+engine.FuncName(fn)+" ("+p.Rel(call.Pos())+")")
+				}
+				if callee.Name() == "PutGzipReader" {
+					putCalls = append(putCalls, call)
+					puts = append(puts, engine.FuncName(fn)+" ("+p.Rel(call.Pos())+")")
+				}
+			}
+		}
+		r.Check(len(conf) == 0, "R12.3-decode-before-forward", "decompressor configuration", "calls of gzip.Reader methods in kvass", "none: the reader decodes the whole body (every member) as the pool hands it out", strings.Join(conf, "; "))
+		var probs []string
+		if len(putCalls) > 1 {
+			// several release sites are only safe when each forgets the reader it gave back
+			fGz := p.Field(pkgScrape, "Scraper", "gZipReader")
+			for _, pc := range putCalls {
+				fi := p.Info(pc.Parent())
+				cleared := fi.MustPass(pc, nil, func(in ssa.Instruction) bool {
+					st, ok := in.(*ssa.Store)
+					if !ok {
+						return false
+					}
+					fa, ok := st.Addr.(*ssa.FieldAddr)
+					return ok && engine.FieldOf(fa) == fGz && isNilConst(st.Val)
+				})
+				if !cleared {
+					probs = append(probs, "released at "+p.Rel(pc.Pos())+" without forgetting it, and there are "+fmt.Sprint(len(putCalls))+" release sites: the same reader can enter the pool twice and then decode two responses at once")
+				}
+			}
+		}
+		r.Check(len(probs) == 0 && len(putCalls) > 0, "R12.3-decode-before-forward", "decompressor release", "release sites: "+strings.Join(puts, ", "), "the pooled reader is given back exactly once", strings.Join(probs, "; "))
+	}
+
 	// ---- R12.4 / R12.5 in the proxy
 	pr := findProxy(p)
 	if pr == nil || pr.request == nil || pr.parse == nil {
@@ -558,4 +604,19 @@ func loopOfHeader(fi *engine.FuncInfo, h *ssa.BasicBlock) *loopInfo {
 	return &loopInfo{header: h, blocks: mem}
 }
 
-func controlsC12(p *engine.Prog) []Control { return nil }
+func controlsC12(p *engine.Prog) []Control {
+	// the decompressor is told to stop after the first gzip member -> R12.3 (a rule whose instance count is zero on the tree)
+	c1 := astControl(p, pkgScrape, "gzip reader configured to stop at the first member", "C12/R12.3", func(n ast.Node, src []byte, off func(token.Pos) int) (int, int, string, bool) {
+		as, ok := n.(*ast.AssignStmt)
+		if !ok || len(as.Lhs) != 1 || len(as.Rhs) != 1 {
+			return 0, 0, "", false
+		}
+		sel, ok := as.Rhs[0].(*ast.SelectorExpr)
+		if !ok || sel.Sel.Name != "gZipReader" {
+			return 0, 0, "", false
+		}
+		rhs := string(src[off(sel.Pos()):off(sel.End())])
+		return off(as.Pos()), off(as.Pos()), rhs + ".Multistream(false)\n", true
+	})
+	return []Control{c1}
+}
